@@ -1,10 +1,12 @@
 """ASSUMED contracts on dependencies (the trusted base).  Each handler records its tag in
 eng.used_assumptions; conformance tests for these assumptions live in pyvc/rt_conformance.py."""
+import ast
 import z3
 
 from pyvc.sym import *  # noqa
 from pyvc.engine import Unsupported, RaiseSig, zint, zstr
 from pyvc import lib
+from pyvc.spec import spec_builtin
 from pyvc.lib import uf, S, I, B, BitsS
 from . import R
 
@@ -295,10 +297,7 @@ def ext_comprehension(eng, args, kw, node):
         raise Unsupported("comprehension over %r" % (it,))
     g = n.generators[0]
     if g.ifs:
-        h = R.ext.get("comprehension.filter")
-        if h is None:
-            raise Unsupported("filtered comprehension over symbolic sequence")
-        return h(eng, args, kw, node)
+        return ext_filter_comprehension(eng, args, kw, node)
     if kind != "list":
         raise Unsupported("%s comprehension over symbolic sequence" % kind)
     i = z3.Int(eng.fresh_name("comp.i"))
@@ -341,6 +340,48 @@ def ext_comprehension(eng, args, kw, node):
     return lib.alloc(eng, Ty("list", v.ty), P(SeqT(v.ty), r), "cell.comp")
 
 
+def ext_filter_comprehension(eng, args, kw, node):
+    """[f(x) for x in L if c(x)]: fresh sequence r with
+         forall k. c(L[k]) => r contains f(L[k])                      (nothing selected is dropped)
+         forall t < len(r). r[t] == f(L[src(t)]) and c(L[src(t)])     (nothing else is in r; src = skolem function)
+       order and multiplicity are left unspecified."""
+    n, kind, it = args
+    src = lib.seq_of(eng, it)
+    g = n.generators[0]
+    i = z3.Int(eng.fresh_name("fcomp.i"))
+    ln = z3.Length(src.term)
+    saved = dict(eng.st.vars)
+    eng.guards.append(z3.And(i >= 0, i < ln))
+    try:
+        if isinstance(g.target, ast.Name):
+            eng.st.vars[g.target.id] = P(src.ty.args[0], src.term[i])     # no let-binding: the index is generalised below
+        else:
+            eng.assign(g.target, P(src.ty.args[0], src.term[i]))
+        conds = [eng.truth(eng.ev(c)) for c in g.ifs]
+        eng.guards.append(z3.And(conds))
+        try:
+            v = eng.ev(n.elt)
+        finally:
+            eng.guards.pop()
+    finally:
+        eng.guards.pop()
+        eng.st.vars = saved
+    if isinstance(v, TupV) and len(v.items) == 2 and all(isinstance(x, P) and x.ty == STR for x in v.items):
+        v = P(Opq("Pair"), mkpair(v.items[0].term, v.items[1].term))
+    if not isinstance(v, P):
+        raise Unsupported("filtered comprehension element %r" % (v,))
+    cond = z3.And(conds)
+    r = z3.Const(eng.fresh_name("fcomp"), sort_of(SeqT(v.ty)))
+    srcf = z3.Function(eng.fresh_name("fcomp.src"), z3.IntSort(), z3.IntSort())
+    k = z3.Int(eng.fresh_name("fcomp.k"))
+    t = z3.Int(eng.fresh_name("fcomp.t"))
+    eng.st.schemas.append(Schema("fcomp.complete", [k], z3.Implies(
+        z3.And(k >= 0, k < ln, z3.substitute(cond, (i, k))), z3.Contains(r, z3.Unit(z3.substitute(v.term, (i, k)))))))
+    eng.st.schemas.append(Schema("fcomp.sound", [t], z3.Implies(z3.And(t >= 0, t < z3.Length(r)), z3.And(
+        srcf(t) >= 0, srcf(t) < ln, z3.substitute(cond, (i, srcf(t))), r[t] == z3.substitute(v.term, (i, srcf(t)))))))
+    return lib.alloc(eng, Ty("list", v.ty), P(SeqT(v.ty), r), "cell.fcomp")
+
+
 @R.external("cell.extend")
 def ext_extend(eng, args, kw, node):
     recv, other = args
@@ -367,14 +408,16 @@ R.list_extend = _list_extend
 @R.axiom
 def seq_facts(eng):
     """theorems of the sequence theory (not assumptions), given as instantiation help"""
-    SS = sort_of(SeqT(STR))
-    a, b = z3.Const("sf.a", SS), z3.Const("sf.b", SS)
-    i = z3.Int("sf.i")
-    cat = z3.Concat(a, b)
-    return [Schema("seq.nth_concat", [a, b, i], z3.And(
-        z3.Implies(z3.And(i >= 0, i < z3.Length(a)), cat[i] == a[i]),
-        z3.Implies(z3.And(i >= z3.Length(a), i < z3.Length(a) + z3.Length(b)), cat[i] == b[i - z3.Length(a)])),
-        triggers=[[cat[i]]], origin="theory")]
+    out = []
+    for tag, SS in (("", sort_of(SeqT(STR))), (".pair", z3.SeqSort(z3.DeclareSort("Pair")))):
+        a, b = z3.Const("sf.a" + tag, SS), z3.Const("sf.b" + tag, SS)
+        i = z3.Int("sf.i" + tag)
+        cat = z3.Concat(a, b)
+        out.append(Schema("seq.nth_concat" + tag, [a, b, i], z3.And(
+            z3.Implies(z3.And(i >= 0, i < z3.Length(a)), cat[i] == a[i]),
+            z3.Implies(z3.And(i >= z3.Length(a), i < z3.Length(a) + z3.Length(b)), cat[i] == b[i - z3.Length(a)])),
+            triggers=[[cat[i]]], origin="theory"))
+    return out
 
 
 @R.external("spec.ValidNet4")
@@ -1029,3 +1072,137 @@ def ext_opaque_pattern_sub2(eng, args, kw, node):
     t = eng.term(repl, STR)
     eng.safety("re.sub template has no backslash", z3.Not(z3.Contains(t, zstr("\\"))), node)
     return P(STR, z3.Const(eng.fresh_name("resub"), S))
+
+
+# ---------------------------------------------------------------- E-os (paths, directory walk, open)
+PairS = sort_of(Opq("Pair"))
+mkpair = uf("mkpair", S, S, PairS)
+pair_fst = uf("pair_fst", PairS, S)
+pair_snd = uf("pair_snd", PairS, S)
+WalkS = sort_of(Opq("WalkEntry"))
+
+
+@R.axiom
+def e_pairs(eng):
+    a, b = z3.Const("pr.a", S), z3.Const("pr.b", S)
+    return [Schema("pair.proj", [a, b], z3.And(pair_fst(mkpair(a, b)) == a, pair_snd(mkpair(a, b)) == b),
+                   triggers=[[mkpair(a, b)]], origin="theory")]
+
+
+@R.external("unpack.Pair")
+def _unpack_pair(eng, args, kw, node):
+    p = args[0].term
+    return [P(STR, pair_fst(p)), P(STR, pair_snd(p))]
+
+
+def _os_pred(name):
+    def h(eng, args, kw, node):
+        eng.used_assumptions.add("E-os")
+        # file-system state can change between calls: each query is a fresh observation
+        return P(BOOL, z3.Bool(eng.fresh_name("os." + name)))
+    return h
+
+
+for _n in ("exists", "isfile", "isdir", "samefile"):
+    R.ext["os.path." + _n] = _os_pred(_n)
+
+
+@R.external("os.listdir")
+def _os_listdir(eng, args, kw, node):
+    eng.used_assumptions.add("E-os")
+    return lib.alloc(eng, Ty("list", STR), P(SeqT(STR), z3.Const(eng.fresh_name("os.listdir"), z3.SeqSort(S))), "cell.listdir")
+
+
+def _os_strfun(name, arity):
+    def h(eng, args, kw, node):
+        eng.used_assumptions.add("E-os")
+        ts = [eng.term(a, STR) for a in args]
+        f = uf("os_%s_%d" % (name, len(ts)), *([S] * len(ts)), S)
+        return P(STR, f(*ts))
+    return h
+
+
+R.ext["os.path.join"] = _os_strfun("join", None)
+R.ext["os.path.relpath"] = _os_strfun("relpath", None)
+R.ext["os.path.dirname"] = _os_strfun("dirname", None)
+
+
+@R.external("os.makedirs")
+def _os_makedirs(eng, args, kw, node):
+    eng.used_assumptions.add("E-os")
+    eng.st.calls.append(("os.makedirs", {"path": args[0]}))
+    if eng.decide(z3.Bool(eng.fresh_name("os.makedirs.fails"))):
+        raise RaiseSig("OSError")
+    return NoneV()
+
+
+@R.external("os.walk")
+def _os_walk(eng, args, kw, node):
+    eng.used_assumptions.add("E-os")
+    return Special("oswalk", top=args[0], entries=z3.Const(eng.fresh_name("os.walk"), z3.SeqSort(WalkS)))
+
+
+def _iter_walk(eng, c, s):
+    def at(k):
+        e = c.entries[k]
+        return TupV([P(STR, uf("walk_root", WalkS, S)(e)),
+                     lib.alloc(eng, Ty("list", STR), P(SeqT(STR), uf("walk_dirs", WalkS, z3.SeqSort(S))(e)), "cell.dirs"),
+                     lib.alloc(eng, Ty("list", STR), P(SeqT(STR), uf("walk_files", WalkS, z3.SeqSort(S))(e)), "cell.files")])
+    return z3.Length(c.entries), at
+
+
+R.iter_models["oswalk"] = _iter_walk
+
+
+@R.external("open")
+def _open(eng, args, kw, node):
+    """open(path, mode): may fail with OSError; the ghost call record keeps (path, mode)"""
+    eng.used_assumptions.add("E-os")
+    path = args[0]
+    mode = args[1] if len(args) > 1 else Conc("r")
+    eng.st.calls.append(("open", {"path": path, "mode": mode}))
+    if eng.decide(z3.Bool(eng.fresh_name("open.fails"))):
+        raise RaiseSig("OSError")
+    if isinstance(mode, Conc) and "w" in mode.v:
+        return eng.fresh(ObjT("OutFile"), "file.w")
+    return eng.fresh(ObjT("InFile"), "file.r")
+
+
+@R.external("attr.exc.errno")
+def _exc_errno(eng, args, kw, node):
+    return P(INT, z3.Int(eng.fresh_name("errno")))
+
+
+@R.external("errno.EEXIST")
+def _eexist(eng, args, kw, node):
+    return Conc(17)
+
+
+@R.external("mkpair")
+def _mkpair(eng, args, kw, node):
+    return P(Opq("Pair"), mkpair(eng.term(args[0], STR), eng.term(args[1], STR)))
+
+
+# "same relative path": Mirror(a, b, i, o) holds when a and b are the same non-hidden name under the same relative
+# directory of i and of o.  Only the introduction rule is given (sound for the least such relation).
+Mirror = uf("os_mirror", S, S, S, S, z3.BoolSort())
+
+
+@R.axiom
+def e_mirror(eng):
+    i, o, r, f = [z3.Const("mr." + n, S) for n in "iorf"]
+    j3 = uf("os_join_3", S, S, S, S)
+    return [Schema("mirror.intro", [i, o, r, f],
+                   z3.Implies(z3.Not(z3.PrefixOf(z3.StringVal("."), f)), Mirror(j3(i, r, f), j3(o, r, f), i, o)),
+                   triggers=[[j3(i, r, f), j3(o, r, f)]], origin="theory")]
+
+
+@spec_builtin("PairOK")
+def _sp_pair_ok(eng, args, kw, n):
+    """PairOK(p, i, o): the (input file, output file) pair p is (i, o) itself or a mirrored pair under i and o"""
+    i, o = eng.term(args[1], STR), eng.term(args[2], STR)
+    if isinstance(args[0], TupV):
+        a, b = [eng.term(x, STR) for x in args[0].items]
+    else:
+        a, b = pair_fst(args[0].term), pair_snd(args[0].term)
+    return P(BOOL, z3.Or(z3.And(a == i, b == o), Mirror(a, b, i, o)))
